@@ -1654,6 +1654,9 @@ impl Reference
 				}
 				ReferenceStep::Autodeslice { offset: 0 } =>
 				{
+					// What follows is reached through the pointer inside
+					// the slice, not through the parameter itself.
+					is_immediate_parameter = false;
 					if indices.is_empty()
 					{
 						addr = unsafe {
